@@ -118,6 +118,21 @@ def replay_once(binpath, b, casefile, outdir, timeout=300):
     lg = os.path.join(outdir, 'replay-%s-%d.log' % (os.path.basename(casefile), int(time.time() * 1000) % 100000))
     kind = b.get('kind', 'rc')
     env = base_env(dict(b.get('env', {}), PBT_OUT=outdir))
+    first = ''
+    try:
+        first = open(casefile, errors='replace').readline().strip()
+    except OSError:
+        pass
+    if first.startswith('__campaign__@'):
+        # process-level failure (e.g. LeakSanitizer at exit, crash in static destruction): the reproducible unit
+        # is the whole seeded campaign of that binary
+        try:
+            conf = json.loads(open(casefile).read().split('\n', 1)[1].split('\n#')[0])
+        except (ValueError, IndexError):
+            return 'error', lg
+        env.update({k: str(v) for k, v in conf.items()})
+        rc, to, _ = run_proc([binpath], env, 3600, lg)
+        return ('pass' if rc == 0 and not to else 'fail'), lg
     if kind == 'fuzz':
         cmd = [binpath, casefile]
     elif kind == 'hyp':
@@ -443,6 +458,15 @@ def check(pid, tier):
         cases = failing_cases(res)
         if res['rc'] == 0 and not cases:
             continue
+        if not cases and res['rc'] != 0 and not res['timeout'] and b.get('kind', 'rc') == 'rc':
+            logtxt = tail(res['log'], 400)
+            if 'Sanitizer' in logtxt or 'runtime error' in logtxt:
+                # a sanitizer spoke outside any case (leak check at exit, static destruction): replayable as a campaign
+                cf = os.path.join(res['outdir'], 'campaign-%s.case' % b['name'])
+                conf = dict(PBT_SEED=res['seed'], PBT_SCALE=res['tierconf'].get('scale', 1.0), PBT_SIZE=res['tierconf'].get('size', 100), PBT_TIER=tier)
+                with open(cf, 'w') as f:
+                    f.write('__campaign__@%s\n%s\n# process-level sanitizer report without a case in flight\n' % (b['name'], json.dumps(conf)))
+                cases = [(cf, 'process-level sanitizer report')]
         if not cases and res['rc'] != 0 and not res['timeout']:
             # failed without leaving a case: generator gave up / internal error -> broken check, not a violation
             log('CHECK-ERROR property=%s harness=%s rc=%s (no failing case saved)\n%s' % (pid, b['name'], res['rc'], tail(res['log'], 40)))
@@ -452,6 +476,8 @@ def check(pid, tier):
             if how.startswith('crash') or how == 'hang':
                 cf = try_minimize(binpaths, b, cf, res['outdir'])
             ntries = prop.get('confirm_replays', 3)  # racy properties replay more often: one reproduction confirms
+            if how.startswith('process-level'):
+                ntries = 1
             fails, logs = confirm(binpaths, b, cf, os.path.join(res['outdir'], 'confirm'), times=ntries)
             if fails == 0:
                 notes.append('FLAKY-UNCONFIRMED %s (%s): 0/%d replays failed' % (cf, how, ntries))
